@@ -345,6 +345,10 @@ class E3(object):
         the child rows whose f is in collP (prune's old_nameplates / old_mailboxes
         form)"""
         collP = strip_wrappers(key[1])
+        while collP[0] == "slice":
+            # parents are deleted for a slice of collP only: a subset of the
+            # parents whose children the earlier loop removed
+            collP = strip_wrappers(collP[1])
         if collP[0] != "coll":
             return None
         interp = self.model.interp
@@ -359,6 +363,8 @@ class E3(object):
             # every normal alternative deletes C where cpk = elem(collC)
             alts_ok = True
             for alt in it["alts"]:
+                if alt["out"] in ("break", "return"):
+                    alts_ok = False     # the child loop may stop early
                 if alt["out"] != "normal":
                     continue
                 found = False
@@ -735,8 +741,9 @@ class E3(object):
             construct = "%s: %s[%s]" % (e["func"], _name_of(base), e["key"][1])
             truth = pc_truth(e["pc"])
             guarded = False
-            for t in truth:
-                if mentions(t, lambda x: x == base or x == inner):
+            need = e["key"][1] + 1 if e["key"][1] >= 0 else -e["key"][1]
+            for t, v in truth.items():
+                if _len_lower_bound(t, v, (base, inner)) >= need:
                     guarded = True
             if guarded:
                 self.add("index", construct, e, True, "emptiness of the list is tested "
@@ -790,6 +797,36 @@ class E3(object):
         if kind in ("fk_delete",):
             self.require_proved()
         return [f for f in self.findings if f.kind == kind]
+
+
+def _len_lower_bound(t, v, lists):
+    """the least length of one of `lists` that the condition t == v implies
+    (0 when it implies nothing)"""
+    while t[0] in ("not", "truth"):
+        if t[0] == "not":
+            v = not v
+        t = t[1]
+    if t in lists:
+        return 1 if v else 0
+    if t[0] == "cmp" and len(t) == 4:
+        op, a, b = t[1], t[2], t[3]
+        flip = {"<": ">", ">": "<", "<=": ">=", ">=": "<=", "==": "==", "!=": "!="}
+        if is_const(a) and not is_const(b):
+            a, b = b, a
+            op = flip.get(op, op)
+        if a[0] == "call" and a[1] == "len" and a[2] and a[2][0] in lists and \
+                is_const(b) and isinstance(b[1], int):
+            c = b[1]
+            if not v:
+                op = {"<": ">=", ">": "<=", "<=": ">", ">=": "<", "==": "!=",
+                      "!=": "=="}.get(op, op)
+            if op == ">":
+                return c + 1
+            if op in (">=", "=="):
+                return c
+            if op == "!=" and c == 0:
+                return 1
+    return 0
 
 
 def _name_of(t):
